@@ -89,6 +89,7 @@ pub fn run_fam(cfg: &RunCfg, blocking: bool) -> Report {
 				let ids = expected_ids(tc.arena, target);
 				let rw: Vec<bool> = ids.iter().map(|id| is_rw(&w, *id)).collect();
 				let mut local = Vec::new();
+				let mut case_no = i;
 				for asg in assignments(&rw) {
 					for mode in [Mode::Excl, Mode::Shared] {
 						if mode == Mode::Shared && !readable {
@@ -97,18 +98,33 @@ pub fn run_fam(cfg: &RunCfg, blocking: bool) -> Report {
 						for &(api, lent) in apis.iter() {
 							place(&w, &ids, &asg, blocking);
 							let before = w.snapshot();
+							// a third of the cases are run from a destructor during an unrelated unwind
+							case_no += 1;
 							let acq = Acq {
 								target: target.clone(),
 								mode,
 								api,
 								lent,
 								panic: false,
+								unwind: case_no % 3 == 0,
 							};
 							tc.try_max = 1;
 							tc.outcomes.clear();
 							tc.run_acq(&acq);
+							if acq.unwind && case_no % 2 == 0 {
+								// guards dropped during the unwind poisoned the wrappers: un-poison every
+								// other time so that both states keep being exercised
+								for leaf in tc.arena.leaves.iter() {
+									match leaf {
+										Leaf::PM(p) => p.clear_poison(),
+										Leaf::PR(p) => p.clear_poison(),
+										_ => {}
+									}
+								}
+							}
 							if blocking {
 								// the key that came back must re-acquire the very same locks at once
+								let acq = Acq { unwind: case_no % 3 == 1, ..acq.clone() };
 								tc.run_acq(&acq);
 								if tc.outcomes != vec![true, true] {
 									w.violate(
@@ -150,6 +166,7 @@ pub fn run_fam(cfg: &RunCfg, blocking: bool) -> Report {
 			});
 			rep.count("solo_episodes", 1);
 			rep.count("raw_ops", out.stats.raw_ops);
+			rep.count("acquisitions_made_during_an_unwind", out.tstats.in_unwind);
 			rep.count("failed_raw_tries", out.stats.failed_tries);
 			if let Some(a) = &out.aborted {
 				match a {
@@ -238,11 +255,11 @@ pub fn run_fam(cfg: &RunCfg, blocking: bool) -> Report {
 	rep.exhaustive = cfg.only.is_none();
 	rep.count("shapes", shapes.len() as u64);
 	if blocking {
-		rep.rule = format!("enumeration as in the try family (families x sizes 0..{max_n} x every shape x every assignment of {{free, read-held, write-held}}) but through the blocking APIs {{guard+drop, guard+unlock, scoped owned key, scoped lent key}}; phantom holders release when the caller blocks on them (this is what moves the retrying collection's first_index); every acquisition is performed twice in a row (immediate re-acquisition with the key that came back); both wake policies");
+		rep.rule = format!("enumeration as in the try family (families x sizes 0..{max_n} x every shape x every assignment of {{free, read-held, write-held}}) but through the blocking APIs {{guard+drop, guard+unlock, scoped owned key, scoped lent key}}; phantom holders release when the caller blocks on them (this is what moves the retrying collection's first_index); every acquisition is performed twice in a row (immediate re-acquisition with the key that came back); both wake policies; a third of the first and a third of the second acquisitions are made from a destructor that runs during an unrelated unwind (thread::panicking() is true throughout)");
 		return rep;
 	}
 	rep.rule = format!(
-		"exhaustive enumeration: leaf families {{R, M, Poisonable<R>, Poisonable<M>, mixed}} x sizes 0..{max_n} x every shape (single lock; boxed/ref/retrying collection in every arrangement; poisonable-wrapped collection; every 2-level nesting split; owned/boxed/retrying units directly and nested) x every assignment of {{free, read-held, write-held by a phantom holder}} to the leaves x {{try_lock, try_read}} x {{try, scoped_try owned key, scoped_try lent key}} x both wake policies, quiescent (no waiters); a case is non-trivial iff some leaf is pre-held or the shape has >= 2 leaves; distinct = distinct (shape, assignment, mode, api)"
+		"exhaustive enumeration: leaf families {{R, M, Poisonable<R>, Poisonable<M>, mixed}} x sizes 0..{max_n} x every shape (single lock; boxed/ref/retrying collection in every arrangement; poisonable-wrapped collection; every 2-level nesting split; owned/boxed/retrying units directly and nested) x every assignment of {{free, read-held, write-held by a phantom holder}} to the leaves x {{try_lock, try_read}} x {{try, scoped_try owned key, scoped_try lent key}} x both wake policies, quiescent (no waiters); every third case is run from a destructor during an unrelated unwind (guards dropped there poison Poisonable wrappers, which are un-poisoned every other time, so both wrapper states are exercised); a case is non-trivial iff some leaf is pre-held or the shape has >= 2 leaves; distinct = distinct (shape, assignment, mode, api)"
 	);
 	rep
 }
